@@ -16,10 +16,16 @@ static inline void TcpEngine_closeNow(TcpEngine *self, Session *s, TransportErro
   s->closed = true;
   G_close_sid = s->id; G_close_why = why; G_close_seq = ++G_seq;
   if (G_close_calls < 0x7fffffffu) G_close_calls++;
+#ifdef TCP_READ_DFCC
+  if (s->id == iora_sessmap_GKEY) self->_sessions.has = 0;      /* DFCC build: loop contracts have no frees clause, the object stays */
+#else
   iora_sessmap_erase(&self->_sessions, s->id);
+#endif
 }
 /* virtual test hooks (B6): any answer, no side effect on the engine */
-static inline bool TcpEngine_beforeSslRead(TcpEngine *self, SessionId sid) { (void)self; (void)sid; return nondet_bool(); }
+bool IORA_HOOK_ALLOWS;          /* SEARCH build sets it: the default hook (returns true), as in the replay executable */
+bool G_hook_veto;               /* the test hook vetoed a read in this call */
+static inline bool TcpEngine_beforeSslRead(TcpEngine *self, SessionId sid) { (void)self; (void)sid; bool ok = IORA_HOOK_ALLOWS ? 1 : nondet_bool(); if (!ok) G_hook_veto = 1; return ok; }
 static inline const char *TcpEngine_getInjectedErrorMessage(TcpEngine *self) { (void)self; return "injected"; }
 static inline int TcpEngine_getInjectedSslError(TcpEngine *self) { (void)self; return nondet_int(); }
 static inline const char *TcpEngine_lastErr(TcpEngine *self) { (void)self; return "errno text"; }
@@ -41,7 +47,7 @@ static inline void iora_cb_onData(TcpEngine *self, SessionId sid, iora_wptr p, s
 }
 
 #define READ_GHOSTS G_received, G_delivered, G_recv_calls, G_sslr_calls, G_rd_pos_calls, G_rd_last, G_errno, G_ssl_last_ret, G_ssl_last_err, \
-                    G_close_calls, G_close_seq, G_close_sid, G_close_why, G_dcb_calls, G_dcb_seq, G_dcb_sid, IORA_EPOLL_GHOSTS
+                    G_close_calls, G_close_seq, G_close_sid, G_close_why, G_hook_veto, G_dcb_calls, G_dcb_seq, G_dcb_sid, IORA_EPOLL_GHOSTS
 
 /* loop 1 of readAvail: `for (;;)`. No variant: the loop runs as long as the kernel has data (termination is the peer's choice). */
 #define IORA_LOOP_TcpEngine_readAvail_1 IORA_LC( \
@@ -53,4 +59,4 @@ static inline void iora_cb_onData(TcpEngine *self, SessionId sid, iora_wptr p, s
   __CPROVER_loop_invariant(G_dcb_calls == __CPROVER_loop_entry(G_dcb_calls) || G_dcb_sid == s->id) \
   __CPROVER_loop_invariant(s->tlsMode == TlsMode_None ? G_sslr_calls == __CPROVER_loop_entry(G_sslr_calls) : G_recv_calls == __CPROVER_loop_entry(G_recv_calls)) \
   __CPROVER_loop_invariant(G_ep_mods == __CPROVER_loop_entry(G_ep_mods) && s->tlsWantWrite == __CPROVER_loop_entry(s->tlsWantWrite)) \
-  __CPROVER_loop_invariant(G_rd_last == 0 || G_rd_last == IORA_RD_DATA))
+  __CPROVER_loop_invariant((G_rd_last == 0 || G_rd_last == IORA_RD_DATA) && !G_hook_veto))
